@@ -90,6 +90,16 @@ def uncmd(s):
     return int(s[1:]) if s[0] == "o" else unhex(s[1:])
 
 
+def hashS(b):
+    return "h" + bytes(b).hex()
+
+
+def unhash(s):
+    if s[:1] != "h":
+        raise BadOp()
+    return bytes.fromhex(s[1:])
+
+
 def unnode(s):
     cls, key, chain, depth, index, t, fp = s.split(":")
     klass = bip32.PrvKeyNode if cls == "P" else bip32.PubKeyNode
@@ -156,6 +166,9 @@ def make_wallet(spec, cls=None):
     if kind == "seedh":
         _, sd, t = parts
         return cls.from_bip39_seed_hex(bip39_seed=unstr(sd), testnet=unbool(t))
+    if kind == "raw":
+        _, sd, nt, wt = parts
+        return cls(master=bip32.PrvKeyNode.master_key(bip39_seed=unhex(sd), testnet=unbool(nt)), testnet=unbool(wt))
     if kind == "xkey":
         return cls.from_extended_key(extended_key=unstr(parts[1]))
     if kind == "new":
@@ -376,6 +389,103 @@ def _run(tok):
     if op == "w_bip85":
         w = make_wallet(a[0])
         return sx(_bip85_call(w.bip85, a[1], int(a[2]), int(a[3])))
+    # ---------------------------------------------------------------- EXTRA
+    if op == "chunks":
+        cs = list(helper.chunks(unlist(int, a[1]), int(a[0])))
+        return "/".join(lst(str, c) for c in cs) if cs else "-"
+    if op == "merkle_parent":
+        return hx(helper.merkle_parent(unhex(a[0]), unhex(a[1])))
+    if op == "merkle_level":
+        hs = unlist(unhash, a[0])
+        r = helper.merkle_parent_level(hs)            # mutates hs
+        return lst(hashS, r) + " " + lst(hashS, hs)
+    if op == "merkle_root":
+        hs = unlist(unhash, a[0])
+        r = helper.merkle_root(hs)                    # mutates hs
+        return hashS(r) + " " + lst(hashS, hs)
+    if op == "b32_addr":
+        return hx(helper.bech32_decode_address(unstr(a[0])))
+    if op == "scr_add":
+        sc = script.Script(unlist(uncmd, a[0])) + script.Script(unlist(uncmd, a[1]))
+        try:
+            raw = hx(sc.raw_serialize())
+        except Exception:
+            raw = "err"
+        return lst(cmdS, sc.cmds) + " " + raw
+    if op == "scr_eq":
+        return boolS(script.Script(unlist(uncmd, a[0])) == script.Script(unlist(uncmd, a[1])))
+    if op == "scr_repr":
+        return sx(repr(script.Script(unlist(uncmd, a[0]))))
+    if op == "ver_list":
+        V = wu.Version
+        fn = {"main": V.mainnet_versions, "test": V.testnet_versions,
+              "prv": V.prv_versions, "pub": V.pub_versions}.get(a[0])
+        if fn is None:
+            raise BadOp()
+        return lst(str, fn())
+    if op == "ver_keys":
+        return lst(str, wu.Version.key_versions(unstr(a[0])))
+    if op == "ver_data":
+        V = wu.Version
+        fn = {"44": V.bip44_data, "49": V.bip49_data, "84": V.bip84_data}.get(a[0])
+        if fn is None:
+            raise BadOp()
+        return lst(lambda kv: sx(kv[0]) + ":" + str(kv[1]), fn().items())
+    if op == "path_pred":
+        p = wu.Bip32Path.parse(unstr(a[0]))
+        return " ".join([boolS(x) for x in (p.bip44, p.bip49, p.bip84, p.bitcoin_testnet,
+                                            p.bitcoin_mainnet, p.external_chain)] + [str(p.bip())])
+    if op == "path_eq":
+        return boolS(wu.Bip32Path.parse(unstr(a[0])) == wu.Bip32Path.parse(unstr(a[1])))
+    if op == "list_get":
+        r = wu.list_get(unlist(int, a[0]), int(a[1]))
+        return "none" if r is None else str(r)
+    if op == "b85_from_xprv":
+        o = bip85.BIP85DeterministicEntropy.from_xprv(unstr(a[0]), testnet=unbool(a[1]))
+        return nodeS(o.master_node) + " " + boolS(o.testnet)
+    if op == "b85_eq":
+        B = bip85.BIP85DeterministicEntropy
+        return boolS(B(master_node=unnode(a[0]), testnet=unbool(a[1])) ==
+                     B(master_node=unnode(a[2]), testnet=unbool(a[3])))
+    if op == "wallet_eq":
+        return boolS(make_wallet(a[0]) == make_wallet(a[1]))
+    if op == "priv_eq":
+        return boolS(keys.PrivateKey(unhex(a[0])) == keys.PrivateKey(unhex(a[1])))
+    if op == "pub_eq":
+        return boolS(keys.PublicKey.parse(unhex(a[0])) == keys.PublicKey.parse(unhex(a[1])))
+    if op == "paper_text":
+        import contextlib
+        import shutil
+        import tempfile
+        if a[0] not in ("json", "pprint", "export"):
+            raise BadOp()
+        w = make_wallet(a[1])
+        if a[2] == "-":
+            data = None
+        elif a[2] == "empty":
+            data = {}
+        else:
+            acct, lo, hi = a[2].split(":")
+            data = w.generate(account=int(acct), interval=(int(lo), int(hi)))
+        ind = None if a[3] == "-" else int(a[3])
+        if a[0] == "json":
+            return sx(w.json(data=data, indent=ind))
+        if a[0] == "pprint":
+            out = io.StringIO()
+            with contextlib.redirect_stdout(out):
+                w.pprint(data=data, indent=ind)
+            return sx(out.getvalue())
+        tmp = tempfile.mkdtemp(prefix="verif_exp_")
+        try:
+            path = os.path.join(tmp, "out.json")
+            w.export_wallet(file_path=path, indent=ind, data=data)
+            with open(path, newline="") as f:
+                return sx(f.read())
+        finally:
+            shutil.rmtree(tmp, ignore_errors=True)
+    if op == "wasabi_text":
+        w = make_wallet(a[0])
+        return sx(w.wasabi_json(indent=None if a[1] == "-" else int(a[1])))
     if op == "cli":
         return cli_run(a[0], unhex(a[1]), [] if a[2] == "=" else [unstr(x) for x in a[2].split(",")])[0]
     if op == "hist":
@@ -512,6 +622,10 @@ class HistCtx:
         if k == "was":
             import json
             return jsonS(json.loads(w.wasabi_json()))
+        if k == "nw":
+            # another wallet object over the SAME root node, then the first wallet's root key
+            self.others = getattr(self, "others", []) + [type(w)(master=w.master, testnet=unbool(t[1]))]
+            k = "root"
         if k == "root":
             m = w.master
             return "t" + sx(m.extended_private_key() if type(m) is bip32.PrvKeyNode else m.extended_public_key())
